@@ -53,6 +53,7 @@ Apply(e) ==       \* -> [cells, total, ret]
                           IF SEq(mv, U32Max) THEN [cells |-> cells, total |-> total, ret |-> U32Max]
                           ELSE IF SEq(mv, Zero) THEN [cells |-> cells, total |-> total, ret |-> Zero]
                           ELSE LET t == SMin(a, mv) IN [cells |-> CbSub(cells, ps, t, 1), total |-> SSub(total, t), ret |-> SSub(mv, t)]
+       [] e.op = "union" -> [cells |-> cells, total |-> total, ret |-> Zero]       \* a query: judged by UnionOK
        [] OTHER -> [cells |-> [p \in 1..Len(cells) |-> Zero], total |-> Zero, ret |-> Zero]
   ELSE
      CASE e.op = "add" -> LET r == CmsUpd(cells, ps, a) IN
@@ -65,6 +66,10 @@ Apply(e) ==       \* -> [cells, total, ret]
                           ELSE SClamp(SAdd(cells[p], N(e.other.cells[p])), I32Min, I32Max)],
              total |-> SClamp(SAdd(total, N(e.other.total)), I64Min, I64Max), ret |-> Zero]
        [] OTHER -> [cells |-> [p \in 1..Len(cells) |-> Zero], total |-> Zero, ret |-> Zero]
+
+(* counting-Bloom union of this filter with e.other: cell-wise sum pinned at 2^32-1; e.cells holds the RESULT's cells *)
+UnionOK(e) == /\ Len(e.cells) = Len(cells)
+              /\ \A p \in 1..Len(cells) : SEq(N(e.cells[p]), SMin(SAdd(cells[p], N(e.other.cells[p])), U32Max))
 
 SameCells(a, b) == Len(a) = Len(b) /\ \A i \in 1..Len(a) : SEq(a[i], N(b[i]))
 
@@ -79,8 +84,13 @@ Step == /\ tid <= NT /\ l <= Len(T.ev)
            /\ fails' = fails
                 \cup (IF e.raised THEN {<<"C16.returns", l>>} ELSE {})
                 \cup (IF ~e.raised /\ e.op \in {"add", "rem"} /\ ~SEq(r.ret, N(e.ret)) THEN {<<"C16.pinned_value", l>>} ELSE {})
-                \cup (IF ~e.raised /\ ~SameCells(r.cells, e.cells) THEN {<<"C16.no_half_update", l>>} ELSE {})
-                \cup (IF ~e.raised /\ ~SEq(r.total, N(e.total)) THEN {<<"C16.total_pinned", l>>} ELSE {})
+                \cup (IF ~e.raised /\ e.op # "union" /\ ~SameCells(r.cells, e.cells) THEN {<<"C16.no_half_update", l>>} ELSE {})
+                \cup (IF ~e.raised /\ e.op = "union" /\ ~UnionOK(e) THEN {<<"C16.union_clamped", l>>} ELSE {})
+                \cup (IF ~e.raised /\ e.op = "union" /\ ~UnionOK(e)                                  \* no cell of the true sum is saturated: plain C12
+                         /\ \A p \in 1..Len(cells) : SCmp(SAdd(cells[p], N(e.other.cells[p])), U32Max) < 0 THEN {<<"C12.cells", l>>} ELSE {})
+                \cup (IF ~e.raised /\ ~e.other_same THEN {<<"C13.operands_unchanged", l>>, <<"C19.operand_unchanged", l>>} ELSE {})
+                \cup (IF ~e.raised /\ e.op # "union" /\ ~SEq(r.total, N(e.total)) THEN {<<"C16.total_pinned", l>>} ELSE {})
+                \cup (IF ~e.raised /\ ~e.other_same THEN {<<"C16.operand_unchanged", l>>} ELSE {})
                 \cup (IF ~e.raised /\ ~e.rt THEN {<<"C16.exportable", l>>} ELSE {})
         /\ l' = l + 1 /\ tid' = tid
 
